@@ -6,9 +6,17 @@
   handled values `ok`).  Laws: CRProofs/Codec.lean (once per combinator), CRProofs/CRXml.lean (assembly), CRProofs/CRState.lean
   (`StateXMLNode` / `StateFactory`), CRProofs/Decimal.lean (`float_to_str`).
 
-  Not covered by the theorems (explored by the correspondence and the oracle only): the attributes of `<commonRoad>`, the
-  `location` and `scenarioTags` elements (the body codec is proved correct in ANY context of such foreign elements), the byte
-  level (XML escaping, `str(float)` / `float(str)`, `str(int)` is `Int.repr`), 3-D points.
+  CRProofs/CRNorm.lean (norm = mapR ∘ canon, canon = id on strict values), CRProofs/CRFile.lean (root attributes, location,
+  scenario tags: the whole `<commonRoad>` tree).
+
+  Main theorems: `C01_xml_roundtrip` (body, in any foreign context), `C01_xml_roundtrip_whole_file` (the whole tree),
+  `C01_norm_eq_mapR_canon` / `C01_file_norm_eq_mapR_canon` (what a round trip does, exactly), `C01_norm_close_full` /
+  `C01_file_norm_close_full` (on strictly expressible content only the reals change), `C01_trunc_close` (by less than 10^-d).
+
+  Not covered by the theorems (trusted / sampled by the correspondence and the oracle): the byte level (XML escaping,
+  `str(float)` / `float(str)`, `format(x, ".df")` and `np.format_float_positional` for reprs in exponent notation — parameters
+  of the model; `str(int)` is `Int.repr`), `ScenarioID.from_benchmark_id ∘ str` (the benchmark id is a string here; C13),
+  the 2018b reader branch, lanelet assignment.
 -/
 import CRProofs.CRState
 import CRProofs.Decimal
